@@ -81,6 +81,12 @@ def _classify(sig_in, exp, got, i, opts):
     if e is not None and g is not None and e != g and e[:1] in '$`' and \
             oracles.norm_comment(e) == oracles.norm_comment(g):
         return f'{which}|line-ends-normalised-inside-quoted:{e[:1]}'
+    if e is not None and g is not None and e != g and e[:1] in "'\"" and \
+            oracles.norm_comment(e) == oracles.norm_comment(g) and \
+            any(val[:1] in '$`' and (val.count("'") % 2 or val.count('"') % 2) for _, val in sig_in):
+        # same root cause (the serializer only knows '..' and ".." as quoted text): an unpaired quote inside an earlier
+        # dollar-quoted / back-quoted token derails its quote tracking, a later ordinary literal is taken for code
+        return f'{which}|line-ends-normalised-inside-quoted:after-unpaired-quote-in-$-or-`-token'
     if e is not None and g is not None and e.lower() == g.lower():
         how = 'case-differs'
     elif len(got) > len(exp):
